@@ -15,6 +15,21 @@ def main():
     name, tier, seed, variant, out = sys.argv[1], sys.argv[2], int(sys.argv[3]), int(sys.argv[4]), sys.argv[5]
     import numpy as np
 
+    # import everything first: importing jax / flax / optax / gymnasium itself consumes global random numbers,
+    # which has nothing to do with the routine under test
+    import importlib
+    import pkgutil
+
+    import flax.nnx  # noqa: F401
+    import gymnasium  # noqa: F401
+    import jax  # noqa: F401
+    import optax  # noqa: F401
+    import rl_blox.algorithm as _alg
+
+    for m in pkgutil.iter_modules(_alg.__path__):
+        importlib.import_module("rl_blox.algorithm." + m.name)
+    from harness import algos  # noqa: F401
+
     if variant == 1:
         np.random.seed(987654)
         random.seed(424242)
